@@ -277,6 +277,26 @@ pub fn run(ctx: &mut Ctx) {
         if Expression::try_from((ee.clone(), Some(&other_f))).is_ok() {
             ctx.violation("expression/other-function-accepted", &format!("function {:?} accepted where {:?} is expected", f, other_f), replay_env(&ee));
         }
+        // the same on a shape only a decoder produces: the function leaf carries an assertion of its own and the
+        // arguments hang on that node (a node whose subject is a node)
+        {
+            let fn_item = crate::spec::parse_item(&dcbor::CBOR::from(f.clone()).to_cbor_data());
+            if let Ok(fi) = fn_item {
+                use crate::gen::M;
+                let fnode = M::Node(Box::new(M::Leaf(fi)), vec![M::Assertion(Box::new(M::Leaf(Item::Text("a".into()))), Box::new(M::Leaf(Item::Text("b".into()))))]);
+                let outer = M::Node(Box::new(fnode), vec![M::Assertion(Box::new(M::Leaf(Item::Tag(40007, Box::new(Item::UInt(2))))), Box::new(M::Leaf(Item::UInt(5))))]);
+                if let Ok(foreign) = Envelope::try_from_cbor_data(outer.bytes()) {
+                    ctx.count("expected_function_on_decorated_function_subject");
+                    let own = trap::guard(|| Expression::try_from((foreign.clone(), Some(&f))).is_ok());
+                    let other = trap::guard(|| Expression::try_from((foreign.clone(), Some(&other_f))).is_ok());
+                    match (own, other) {
+                        (Ok(_), Ok(true)) => ctx.violation("expression/other-function-accepted/decorated-function", &format!("function {:?} accepted where {:?} is expected (function leaf carrying an assertion of its own)", f, other_f), replay_env(&foreign)),
+                        (Err(p), _) | (_, Err(p)) => ctx.violation(&format!("expression/panic/{}", p.signature()), &format!("{:?}", p), replay_env(&foreign)),
+                        _ => {}
+                    }
+                }
+            }
+        }
 
         // ---- Request
         ctx.eval();
@@ -526,6 +546,15 @@ pub fn run(ctx: &mut Ctx) {
             // ... the extra part given in decorated form (salted, annotated)
             ("both-one-salted", pe.add_assertion_salted(if variant <= 1 { known_values::ERROR } else { known_values::RESULT }, "x", true)),
             ("both-one-annotated", pe.add_assertion_envelope(Envelope::new_assertion(if variant <= 1 { known_values::ERROR } else { known_values::RESULT }, "x").add_assertion(known_values::NOTE, "n")).unwrap()),
+            // ... the predicate of the extra part (or of the original part) obscured
+            ("both-extra-predicate-elided", {
+                let other = if variant <= 1 { known_values::ERROR } else { known_values::RESULT };
+                pe.add_assertion(other.clone(), "x").elide_removing_target(&Envelope::new(other))
+            }),
+            ("both-own-predicate-elided", {
+                let (own, other) = if variant <= 1 { (known_values::RESULT, known_values::ERROR) } else { (known_values::ERROR, known_values::RESULT) };
+                pe.add_assertion(other, "x").elide_removing_target(&Envelope::new(own))
+            }),
             ("second-of-same-salted", pe.add_assertion_salted(if variant <= 1 { known_values::RESULT } else { known_values::ERROR }, "second", true)),
             ("subject-retagged-request", pe.replace_subject(Envelope::new(dcbor::CBOR::to_tagged_value(40004u64, id)))),
             ("subject-untagged", pe.replace_subject(Envelope::new(id))),
